@@ -91,6 +91,68 @@ def apply_edits(spec, edits):
     return spec
 
 
+def run_data_kinds(case, rec):
+    """diff() matches nodes by data_id / equality of the data - what KIND of object the data is plays no role: the
+    same two forests built with plain dicts (unhashable; data_id from a calc_data_id callback, as in the user guide),
+    with objects keyed by a callback and with frozen dataclasses give the same annotated result, label for label, as
+    with strings."""
+    from vlib.build import Flavour
+
+    spec0 = case["t0"]
+    spec1 = apply_edits(spec0, case["edits"]) if "edits" in case else case["t1"]
+    ordered, reduce_ = case["ordered"], case["reduce"]
+    results = {}
+    for fname in ("str", case.get("flavour", "dict_cb")):
+        fl = Flavour(fname)
+        t0, _ = build(spec0, flavour=fl, name="T0")
+        t1, _ = build(spec1, flavour=fl, name="T1")
+        rec.evals += 1
+        try:
+            res = t0.diff(t1, ordered=ordered, reduce=reduce_)
+        except Exception as e:  # noqa: BLE001
+            rec.fail(f"data-kind:{fname}:diff-raises:{type(e).__name__}", {"exc": repr(e)[:200], "ordered": ordered, "reduce": reduce_})
+            return
+        w = walk(res)
+        if w.problems:
+            rec.fail(f"data-kind:{fname}:result-not-a-tree", w.problems)
+            return
+
+        def lab(d):
+            return d if isinstance(d, str) else (d["name"] if isinstance(d, dict) else (d[0] if isinstance(d, tuple) else d.name))
+
+        def coarse(dc):
+            # which of several clones counts as "moved" and which as "added"/"removed" is left open here (the pairs
+            # part holds every mark against its admissible set): one side only - on which side
+            if dc in (DC.ADDED, DC.MOVED_HERE):
+                return "+"
+            if dc in (DC.REMOVED, DC.MOVED_TO):
+                return "-"
+            return repr(dc)
+
+        def one(n):
+            return [lab(n.data), coarse(n.get_meta("dc")), sorted((k, repr(v)) for k, v in (n.meta or {}).items() if k != "dc"), [one(c) for c in w.kids[id(n)]]]
+
+        results[fname] = [one(n) for n in w.kids[id(None)]]
+    rec.cls("flavour=" + case.get("flavour", "dict_cb"))
+
+    def labels(spec, acc):
+        for n in spec:
+            acc.append(n[0])
+            labels(n[1], acc)
+        return acc
+
+    l0, l1 = labels(spec0, []), labels(spec1, [])
+    if len(set(l0)) != len(l0) or len(set(l1)) != len(l1):
+        # with clones, WHICH of them counts as the moved one is not determined (and reduce=True prunes below a
+        # moved node): only "no exception, a well-formed result" is held against these cases
+        rec.cls("with-clones:no-comparison")
+        return
+    rec.nt(spec0 != spec1 and gen.spec_nodes(spec0) >= 3)
+    a, b = results.values()
+    if a != b:
+        rec.fail("data-kind:result-differs-from-the-string-version", {"flavour": case.get("flavour", "dict_cb"), "str": a, "other": b})
+
+
 def run(case, rec):
     spec0 = case["t0"]
     spec1 = apply_edits(spec0, case["edits"]) if "edits" in case else case["t1"]
@@ -370,6 +432,25 @@ def hyp_cases(draw, tier):
     return case
 
 
+@st.composite
+def kind_cases(draw, tier):
+    case = draw(hyp_cases(tier))
+    case["flavour"] = draw(st.sampled_from(["dict_cb", "dict_cb", "obj_cb", "dc", "tuple"]))
+    if draw(st.sampled_from([0, 1, 1])):
+        # every label once per tree: moves are unambiguous, the results must agree label for label
+        case["t0"] = draw(gen.forest_specs(max_nodes=12, max_depth=4, max_width=4, min_nodes=2, unique=True, big=False))
+        case.pop("t1", None)
+        if "edits" not in case:
+            case["edits"] = draw(st.lists(st.one_of(
+                st.tuples(st.just("remove"), st.integers(0, 30), st.integers(0, 5)),
+                st.tuples(st.just("insert"), st.integers(0, 30), st.integers(0, 5), st.sampled_from(["xx", "yy", "zz"])),
+                st.tuples(st.just("reorder"), st.integers(0, 30), st.integers(0, 5), st.integers(0, 5)),
+                st.tuples(st.just("move"), st.integers(0, 30), st.integers(0, 5), st.integers(0, 30), st.integers(0, 5)),
+            ).map(list), min_size=1, max_size=4))
+    return case
+
+
 PARTS = [
     Part("pairs", run, strategy=lambda tier: hyp_cases(tier), n={"quick": 3000, "thorough": 400000}),
+    Part("data-kinds", run_data_kinds, strategy=lambda tier: kind_cases(tier), n={"quick": 600, "thorough": 60000}),
 ]
